@@ -94,6 +94,33 @@ func (w *World) resultJSON(version, ip, gw string, plen int, ifname, netns strin
 		version, ifname, netns, ip, plen, gw))
 }
 
+// badResultJSON: a syntactically valid plugin result without a usable IPv4 address.
+func badResultJSON(version string, kind int) []byte {
+	old := version == "" || version == "0.1.0" || version == "0.2.0"
+	v := version
+	if v == "" {
+		v = "0.2.0"
+	}
+	switch kind {
+	case 0:
+		if old {
+			return []byte(fmt.Sprintf(`{"cniVersion":%q,"dns":{}}`, v))
+		}
+		return []byte(fmt.Sprintf(`{"cniVersion":%q,"ips":[{"version":"6","address":"fd00::2/64"}],"dns":{}}`, v))
+	case 1:
+		if old {
+			return []byte(fmt.Sprintf(`{"cniVersion":%q,"ip4":{"ip":"fd00::2/64"},"dns":{}}`, v))
+		}
+		return []byte(fmt.Sprintf(`{"cniVersion":%q,"ips":[{"version":"4","address":"fd00::2/64"}],"dns":{}}`, v))
+	case 2:
+		return []byte(`null`)
+	}
+	if old {
+		return []byte(fmt.Sprintf(`{"cniVersion":%q,"ip6":{"ip":"fd00::2/64"},"dns":{}}`, v))
+	}
+	return []byte(fmt.Sprintf(`{"cniVersion":%q,"ips":[{"version":"5","address":"10.0.0.2/24"}],"dns":{}}`, v))
+}
+
 func (w *World) handleCNI(t *core.Task, r *core.Req) core.Resp {
 	switch r.Op {
 	case "cni.find":
@@ -174,6 +201,22 @@ func (w *World) handleCNI(t *core.Task, r *core.Req) core.Resp {
 			w.pluginFiles(c, inv, true)
 			c.lastIP = ip
 		}
+		if rq != nil {
+			rq.badResult = false // what counts is the result of the last plugin
+		}
+		if w.cfg.BadResultRate > 0 {
+			h := core.Mix(w.cfg.ScriptSeed, strSum(inv.Container), strSum(inv.IfName), 77, uint64(w.attempts[key]))
+			if int(h%1000) < w.cfg.BadResultRate {
+				// the plugin succeeds but prints a result galaxy cannot use
+				inv.BadResult = true
+				if rq != nil {
+					rq.badResult = true
+				}
+				w.S.Stat("fault.cni.add.unusable-result")
+				w.S.Sig("F:cni.badresult")
+				return core.Resp{B: badResultJSON(conf.CNIVersion, int(h>>12)%4)}
+			}
+		}
 		return core.Resp{B: w.resultJSON(conf.CNIVersion, ip, gw, plen, inv.IfName, inv.Netns)}
 	}
 	return core.Resp{Code: 400, Msg: "unknown op " + r.Op}
@@ -185,12 +228,19 @@ func (w *World) pluginFiles(c *Container, inv *Invocation, add bool) {
 		return
 	}
 	flannel := gcDirs[0] + "/" + c.ID
+	// the host side veth of this interface, named as pkg/utils.HostVethName does (nine characters of the id)
+	veth := "v-h" + c.ID[:9]
+	if inv.IfName != "eth0" {
+		veth += "-" + strings.TrimPrefix(strings.TrimPrefix(inv.IfName, "eth"), "net")
+	}
 	if add {
+		w.Links.Add(veth, "veth")
 		w.FS.Put(flannel, []byte(`{"type":"galaxy-veth"}`))
 		ip := fmt.Sprintf("172.16.%d.%d", 10+c.Pod.Idx, 2+c.Seq*8)
 		w.FS.Put(ipDirs[1]+"/"+ip, []byte(c.ID+"\n"+inv.IfName))
 		return
 	}
+	w.Links.Remove(veth)
 	w.FS.Delete(flannel)
 	for _, d := range ipDirs {
 		for _, name := range w.FS.List(d) {
